@@ -1,0 +1,22 @@
+//go:build verif
+
+package ingestserver
+
+// Verification accessor (build tag "verif"): the HTTP route table of a ts-sql server
+// object as NewServer built it (httpd.NewHandler plus the routes NewServer adds
+// afterwards), without opening the server. Read-only.
+
+import (
+	"github.com/openGemini/openGemini/app"
+	"github.com/openGemini/openGemini/lib/util/lifted/influx/httpd"
+)
+
+// VerifHTTPRoutes returns the registered routes of s and whether /debug/pprof is
+// dispatched; ok is false if s is not a ts-sql server.
+func VerifHTTPRoutes(s app.Server) (routes []httpd.VerifRoute, pprof bool, ok bool) {
+	srv, isSQL := s.(*Server)
+	if !isSQL || srv.httpService == nil || srv.httpService.Handler == nil {
+		return nil, false, false
+	}
+	return srv.httpService.Handler.VerifRoutes(), srv.httpService.Handler.VerifPprofEnabled(), true
+}
